@@ -1,12 +1,14 @@
 (* C04 - engine instances are isolated; interleaved queries do not interfere.
    Only statements; every proof is `exact <lemma>` to a lemma proved in Engine/Isolation.v, Engine/Slots.v,
-   Engine/CursorFrame.v (examples: Engine/IsolationExamples.v).
+   Engine/SlotsReach.v, Engine/CursorFrame.v, Engine/Frame.v (examples: Engine/IsolationExamples.v).
 
    Model (Engine/World.v): a world = n engine records (atom table, fact store, eval_context, reserved names,
    the query generators the caller holds) + ONE heap of variable bindings shared by all engines (a Variable
    is not owned by an engine in the code either).  A step = (engine id, operation); operations: atom,
    assert (assert_fact/asserta/assertz), retract(all), register_function, load_script (overwrite / chained),
-   clear, start / next / close-or-drop / drain of a query generator in a slot.
+   clear, start / next / close-or-drop / drain of a query generator in a slot, peek (get_value of terms over the
+   user's variables between two steps).  The thread part of the property is NOT a theorem: the model's schedules
+   are at operation (= generator step) granularity; threads are a test of the harness (run (c)).
    Pe n i = the cells of engine i (its user variables and everything its queries allocate);
    fP P h / fN P h = the bindings of the heap h whose cell is / is not in P (order kept);
    winv = world invariant: engine ids < n, each generator of engine i holds terms over Pe n i only, and the value
@@ -173,6 +175,18 @@ Theorem C04_disjoint_queries_alone : forall n i, i < n -> forall fuel pre ops e 
   = snd (erun n i fuel (filter (is_slot q) ops) e (fP (PQ_of n i e q) h)).
 Proof. exact disjoint_queries_alone. Qed.
 Print Assumptions C04_disjoint_queries_alone.
+
+(* both halves of the property in one statement: any number of engines, ANY schedule; the operations of engine i are a
+   history pre (any operations; queries started over variables not occurring in the other queries it holds) followed by
+   next / close / drain operations ops, interleaved in any way with the operations of the other engines.  What engine i
+   observes on slot q during ops is what that slot shows when it is the only one advanced, in an engine that ran alone. *)
+Theorem C04_world_disjoint_queries_alone : forall fuel n i sched pre ops e h bs0 q, i < n ->
+  map snd (only i sched) = pre ++ ops ->
+  hist_ok n i fuel pre init_engine [] -> erun n i fuel pre init_engine [] = (e, h, bs0) -> Forall qop ops ->
+  pick q ops (skipn (length pre) (proj i (snd (wrun fuel (init_world n) sched))))
+  = snd (erun n i fuel (filter (is_slot q) ops) e (fP (PQ_of n i e q) h)).
+Proof. exact world_disjoint_queries_alone. Qed.
+Print Assumptions C04_world_disjoint_queries_alone.
 
 (* the same for two bare generators (cursors) over one database: every interleaving of their next() calls
    gives each the result sequence it has alone *)
